@@ -24,4 +24,9 @@ if sfx >= 'c':
     base += ("\nFor this round prefer a trigger of a kind not used above: an error / fault path (a dependency returns an error or a partial "
              "result at a particular point, a failure followed by a retry, a resource limit or size boundary reached, a restart with persisted "
              "state), an unusual but valid configuration, or a long-running effect (counter wrap, expiry of cached state, time passing between two steps).\n")
+if sfx >= 'd':
+    base += ("\nAlso consider, for this round: an interaction of two features that are each exercised alone (address families, path types, "
+             "link types, extension headers, hidden paths, peering, services, grace periods ...), an arithmetic boundary (overflow, wrap-around, "
+             "off-by-one at a size limit, signed/unsigned, truncation to a narrower type), or an order dependence (two operations that commute in the "
+             "specification but not in the changed code). Keep the change small and plausible.\n")
 print(base)
